@@ -34,6 +34,7 @@ type Config struct {
 	Bounds           map[string]int
 	Concrete         *ReplayVector // concrete mode: draws come from a recorded vector
 	KnownOpen        map[string]bool
+	NoDomains        bool
 	PanicOK          bool // uncaught panics end the path without being violations
 	StackOK          bool
 	SolverLog        string
@@ -67,8 +68,10 @@ type Engine struct {
 	stats      Stats
 	stop       bool
 	ifconv     atomic.Int64
+	domDecided atomic.Int64
 	initialWork [][]int64
 	forkSites   map[string]int
+	querySites  map[string]int
 }
 
 type Stats struct {
@@ -146,6 +149,7 @@ type Exec struct {
 	maxAlloc     int64
 	local        map[string]interface{}
 	localWork    *[][]int64
+	doms         domains
 }
 
 func (e *Exec) push(p []int64) {
@@ -171,6 +175,9 @@ func (e *Exec) assertPC(t *Term) {
 		return
 	}
 	e.pc = append(e.pc, t)
+	if !e.eng.conf.NoDomains {
+		e.doms.note(t)
+	}
 	if e.solver != nil {
 		e.flushDecls()
 		e.solver.Assert(t)
@@ -237,6 +244,41 @@ func (e *Exec) branch(fr *frame, cond *Term) bool {
 	}
 	e.symDecs++
 	st := &e.eng.stats
+	if !e.eng.conf.NoDomains {
+		if tf, ff, exact, ok := e.doms.decide(cond); ok {
+			switch {
+			case !tf && !ff:
+				e.abort("infeasible", "path condition unsatisfiable (domain)")
+			case !tf:
+				e.eng.domDecided.Add(1)
+				e.recordDecision(0, true)
+				e.assertPC(c.Not(cond))
+				return false
+			case !ff:
+				e.eng.domDecided.Add(1)
+				e.recordDecision(1, true)
+				e.assertPC(cond)
+				return true
+			case exact:
+				e.eng.domDecided.Add(1)
+				sib := append(append([]int64{}, e.decisions...), 0)
+				e.push(sib)
+				e.recordDecision(1, false)
+				e.assertPC(cond)
+				return true
+			}
+		}
+	}
+	if e.eng.conf.Verbose {
+		e.eng.mu.Lock()
+		if e.eng.querySites == nil {
+			e.eng.querySites = map[string]int{}
+		}
+		nv := map[*Term]bool{}
+		termVars(cond, nv, map[int]bool{})
+		e.eng.querySites[fmt.Sprintf("%s in %s (vars=%d)", fr.pos(), fr.fn.Name(), len(nv))]++
+		e.eng.mu.Unlock()
+	}
 	r1 := e.checkWith(cond)
 	e.countFeas(r1)
 	if r1 == Unsat {
